@@ -469,7 +469,7 @@ func (c21FNV) HashCode(key []byte) uint64 {
 var _ hash.Hasher = c21FNV{}
 
 func c21GenKeys(t *rapid.T, lo, hi int) []string {
-	n := rapid.IntRange(lo, hi).Draw(t, "nkeys")
+	n := rapid.OneOf(rapid.IntRange(lo, hi), rapid.IntRange(min(10, hi), hi)).Draw(t, "nkeys")
 	seen := map[string]bool{}
 	var keys []string
 	for len(keys) < n {
